@@ -7,15 +7,16 @@ To extend the check, append a part-function to PARTS."""
 from .. import vlib
 from . import _cachecommon as cc
 from .c17_mcache import run_mcache
+from .c17_router import run_router
 
 LEVEL = "model_checking"
 
 PARTS = [
     run_mcache,         # the message cache alone (window semantics of Put/Get/GetForPeer/GetGossipIDs/Shift): spec/mcache
-    # run_gossip,       # in-node part (IHAVE/IWANT/IDONTWANT bounds, promises): spec/gossiprouter  -- to be added
+    run_router,         # in-node part (IHAVE/IWANT/IDONTWANT bounds, promises): spec/gossip
 ]
 
 
 def run(ctx):
-    cov, assumptions = cc.merge_parts([part(ctx) for part in PARTS])
+    cov, assumptions = cc.merge_parts(cc.run_parallel([(lambda part=part: part(ctx)) for part in PARTS]))
     return vlib.finish(ctx, LEVEL, cov, assumptions)
